@@ -1,5 +1,5 @@
 //@PROBE file=src/trackers/visual_sort/simple_api.rs test=verif_probe_tracker_constraints_c20 clauses=tracker_constraints
-//@BOUND Sort and VisualSort (IoU(0.3) and Mahalanobis, max idle 5), a 16-step script with slow, fast-moving (8 px per step) and re-appearing objects (gaps 1..=4); constraint tables: on the slow objects: none / non-binding [(1, 10), (2, 20)] / non-binding with re-appearances at gaps beyond the table [(1, 0.08)] / a gap configured twice, first limit non-binding, second binding [(1, 0.08), (1, 0.001)] / unsorted [(2, 0.2), (1, 0.08), (4, 0.3)] - all must give the trace of the unconstrained tracker; binding [(1, 0.05), (3, 0.5)]: no detection is attached to a track farther away (in units of the summed bounding radii, margin 20 %) than the limit for their epoch gap
+//@BOUND Sort and VisualSort (IoU(0.3) and Mahalanobis, max idle 5), a 16-step script with slow, fast-moving (8 px per step) and re-appearing objects (gaps 1..=4); constraint tables: on the slow objects: none / non-binding [(1, 10), (2, 20)] / non-binding with re-appearances at gaps beyond the table [(1, 0.08)] / a gap configured twice, first limit non-binding, second binding [(1, 0.08), (1, 0.001)] / unsorted [(2, 0.2), (1, 0.08), (4, 0.3)] - all must give the trace of the unconstrained tracker; binding [(1, 0.05), (3, 0.5)] and [(9, 0.05)] (an entry beyond the idle window governing all smaller gaps): no detection is attached to a track farther away (in units of the summed bounding radii, margin 20 %) than the limit for their epoch gap
 #[cfg(test)]
 mod verif_probe_tracker_constraints_c20 {
     // Bounded stand-in for the tracker-level clauses of C20 (predict* drive worker threads: out of both verifiers' reach).
@@ -69,17 +69,18 @@ mod verif_probe_tracker_constraints_c20 {
                         k.map(|k| tr[k].iter().map(|r| (r.0, r.1, r.2)).collect::<Vec<_>>()), k.map(|k| base[k].iter().map(|r| (r.0, r.1, r.2)).collect::<Vec<_>>())));
                 }
             }
-            // binding constraints: nothing is attached beyond the limit for its gap
-            let table = [(1usize, 0.05f32), (3, 0.5)];
+            // binding constraints: nothing is attached beyond the limit for its gap (the limit configured for the smallest gap not below it);
+            // the second table has a single entry for a gap BEYOND the idle window (max idle 5): it governs every smaller gap
+            for table in [&[(1usize, 0.05f32), (3, 0.5)][..], &[(9, 0.05)][..]] {
             cases += 1;
-            let tr = run(visual, method, Some(&table), &[0, 1, 2, 3]);
+            let tr = run(visual, method, Some(table), &[0, 1, 2, 3]);
             let mut last: HashMap<usize, (usize, Universal2DBox)> = HashMap::new(); // track -> (epoch, last predicted box)
             let mut fast_continued = 0;
             for (step, recs) in tr.iter().enumerate() {
                 for r in recs {
                     if let Some((e0, pb)) = last.get(&r.0) {
                         let gap = r.1 - e0;
-                        let limit = if gap <= 1 { Some(0.05f32) } else if gap <= 3 { Some(0.5) } else { None };
+                        let limit = table.iter().filter(|(g, _)| *g >= gap).min_by_key(|(g, _)| *g).map(|(_, l)| *l);
                         let d = Universal2DBox::dist_in_2r(pb, &r.4);
                         if let Some(l) = limit { if d > 1.2 * l + 1e-3 { failures.push(format!("PROBE input: tracker {} method={:?} constraints={:?} step={}: tracker_constraints.never_attached_beyond_the_limit_for_the_gap: detection at distance {} (in summed radii) continued track {} over an epoch gap of {} whose limit is {}", if visual { "VisualSort" } else { "Sort" }, method, table, step, d, r.0, gap, l)); } }
                         if d > 0.1 { fast_continued += 1; }
@@ -88,6 +89,7 @@ mod verif_probe_tracker_constraints_c20 {
                 }
             }
             let _ = fast_continued;
+            }
         } }
         eprintln!("PROBE cases={} nontrivial={}", cases * 16, cases * 16);
         for f in failures.iter().take(12) { eprintln!("{}", f); }
